@@ -4,7 +4,7 @@
    The tables are a record so that the regenerated data (Gen/GenParticles.v) is plugged in
    from outside; nothing here depends on their contents. *)
 From Coq Require Import String Ascii List Bool ZArith QArith Arith.
-From DL Require Import Lib.Val Lib.PyDict.
+From DL Require Import Lib.Val Lib.PyDict Lib.Sort.
 Import ListNotations.
 Close Scope Q_scope.
 Open Scope string_scope.
@@ -79,12 +79,6 @@ Definition dd_cc (cc : string -> string) (d : dd) : dd :=
   dd_of_map (pd_of_list (map (fun kv => (cc (fst kv), snd kv)) d)).
 
 (* elements(), sorted — the canonical observation to_list() *)
-Fixpoint insert_sorted (x : string) (l : list string) : list string :=
-  match l with
-  | [] => [x]
-  | y :: r => if String.leb x y then x :: l else y :: insert_sorted x r
-  end.
-Definition sort_strings (l : list string) : list string := fold_right insert_sorted [] l.
 Definition dd_elements (d : dd) : list string := flat_map (fun kv => repeat (fst kv) (snd kv)) d.
 Definition dd_to_list (d : dd) : list string := sort_strings (dd_elements d).
 
